@@ -85,6 +85,13 @@ def mutate(raw: bytes, muts: List[List[Any]]) -> bytes:
         elif kind == 'insert':
             i = m[1] % (len(b) + 1)
             b[i:i] = m[2]
+        elif kind == 'addheader':
+            # a further header line after the k-th line of the head (conflicting or duplicated framing fields, mostly)
+            head_end = bytes(b).find(b'\r\n\r\n')
+            lines = [i for i in range(len(b)) if b[i:i + 2] == b'\r\n' and (head_end < 0 or i <= head_end)]
+            if lines:
+                at = lines[m[1] % len(lines)] + 2
+                b[at:at] = m[2] + b'\r\n'
     return bytes(b)
 
 
@@ -167,7 +174,9 @@ def check_input(c: Dict[str, Any]) -> Tuple[List[Any], Dict[str, Any]]:
         info['dontcare'] = 'tunnel-established'
         return out, info
     n_expect = max(1, len(ref.messages) if ref_complete else 1)
-    p = H.parse_responses(got, [b'GET'] * (n_expect + 3), eof=r['eof'])
+    # (relayed answers of the origin stub are not the proxy's own output; the stub may answer several times when the proxy forwards
+    # bytes it frames differently - the number of responses is not judged here, only that every one is well-formed)
+    p = H.parse_responses(got, [b'GET'] * (n_expect + 60), eof=r['eof'])
     if not p.ok:
         # HEAD-like ambiguity cannot arise: all our methods are parsed as GET by the reference client
         out.append(('malformed-output', feat, {'h11': p.error, 'bytes': got[:200]}, 'complete well-formed responses'))
@@ -307,6 +316,10 @@ MUT = st.one_of(
     st.tuples(st.just('replace'), st.just(b'/'), st.sampled_from([b'/\xff\xfe', b'/\xc3\x28', b'/%ff', b'/\x00', b'/ /', b'/\r'])).map(list),
     st.tuples(st.just('replace'), st.just(b': '), st.sampled_from([b': \xff', b' : ', b':', b': \x00', b'\x00: '])).map(list),
     st.tuples(st.just('append'), st.sampled_from([b'\r\n', b'GET / HTTP/1.1\r\n\r\n', b'\x00' * 8, b'garbage'])).map(list),
+    st.tuples(st.just('addheader'), st.integers(0, 12),
+              st.sampled_from([b'Content-Length: 0', b'Content-Length: 7', b'content-length: 5', b'Content-Length: 99999', b'Transfer-Encoding: chunked',
+                               b'Transfer-Encoding: gzip, chunked', b'Transfer-Encoding: identity', b'Host: other.test', b'Connection: close',
+                               b'Connection: keep-alive, Upgrade', b'Upgrade: websocket', b'Expect: 100-continue', b'Content-Length: 5, 5'])).map(list),
     st.just(['barelf']),
     st.tuples(st.just('insert'), st.integers(0, 4000), st.sampled_from([b'\r\n', b'\n', b'\r', b' ', b'\x00', b'\xff', b': ', b'\r\n\r\n'])).map(list),
 )
@@ -330,6 +343,16 @@ def input_cases(draw: Any, what: str) -> Dict[str, Any]:
             c['req']['method'] = b'CONNECT'
             c['req']['target'] = b'example.test:443'
         c['muts'] = draw(st.lists(MUT, max_size=3)) if what == 'mutated' else []
+        if what == 'conflict':
+            # a request with a body whose framing fields contradict each other: a second Content-Length (other value, same value,
+            # list value), Transfer-Encoding next to Content-Length, unknown codings - placed before or after the original field
+            c['req'] = draw(G.request_spec(form=form, framings=('cl', 'chunked'), max_body=80, max_headers=3, plain_chunked=True))
+            k = draw(st.integers(0, 12))
+            line = draw(st.sampled_from([b'Content-Length: 0', b'Content-Length: 7', b'content-length: 5', b'Content-Length: 99999',
+                                         b'Content-Length: %d' % len(c['req']['body']), b'Content-Length: %d, %d' % (len(c['req']['body']), len(c['req']['body'])),
+                                         b'Transfer-Encoding: chunked', b'Transfer-Encoding: gzip, chunked', b'Transfer-Encoding: identity',
+                                         b'Transfer-Encoding: chunked, chunked', b'Content-Length: +5', b'Content-Length: 0x5']))
+            c['muts'] = [['addheader', k, line]] + draw(st.lists(st.tuples(st.just('addheader'), st.integers(0, 12), st.just(line)).map(list), max_size=1))
     return c
 
 
@@ -370,7 +393,7 @@ def builder_cases(draw: Any) -> Dict[str, Any]:
 def shards(tier: str) -> List[Dict[str, Any]]:
     q = tier == 'quick'
     out = []
-    for what, k_ in (('random', 3), ('valid', 2), ('mutated', 8)):
+    for what, k_ in (('random', 3), ('valid', 2), ('mutated', 8), ('conflict', 2)):
         for i in range(k_):
             out.append({'name': '%s-%d' % (what, i), 'kind': 'input', 'what': what, 'examples': 600 if q else 12000})
     for i in range(3):
